@@ -111,6 +111,8 @@ def build_group(G, bdir, log):
         got = u.add_root(r['name'], sig=r.get('sig'), targs=r.get('targs'))
         names[r.get('as', r['name'])] = got
     u.run()
+    for rn in G.get('complete_records', ()):
+        u.need_struct(cxx2c.norm_name(rn))
     unused = set(cfg.loop_contracts) - getattr(cfg, 'loop_contracts_used', set())
     if unused:
         raise cxx2c.Abort('loop contracts that matched no loop (function renamed or loop removed?): %s' % sorted(unused))
@@ -340,10 +342,13 @@ def run_job(G, u, gen, bdir, job, tier):
     out_props = []
     twin_seen = False
     twin_failed = False
+    other_harnesses = set(j.get('harness') for j in G['jobs'] if j.get('harness')) - {harness}
     for p in props:
         desc = p.get('description', '')
         st = p.get('status')
         loc = p.get('sourceLocation', {})
+        if loc.get('function') in other_harnesses:
+            continue    # assertions of other lemma harnesses in the same TU are unreachable here: not this job's obligations
         item = {'property': p.get('property'), 'description': desc, 'status': st, 'file': os.path.basename(loc.get('file', '')),
                 'line': loc.get('line'), 'function': loc.get('function')}
         if 'VF_VACUITY_TWIN' in desc:
